@@ -49,8 +49,10 @@ def load_source(src, workdir):
     raise ValueError(src)
 
 
-def drive_random(cs, scn, rec, seed, nsteps, modes, genstep_frac=0.3, reset_frac=0.01, bias=0.7):
-    """seeded random / discovery-biased driver over real step() calls"""
+def drive_random(cs, scn, rec, seed, nsteps, modes, genstep_frac=0.3, reset_frac=0.01, bias=0.7, lockstep=False,
+                 extras=True, decode_limit=400):
+    """seeded random / discovery-biased driver over real step() calls; with lockstep every environment takes
+    the same abstract action with the same draw (one group per step)"""
     rng = random.Random(seed)
     probs = pyref.all_probs(cs)
     n = pyref.n_actions(cs)
@@ -59,6 +61,18 @@ def drive_random(cs, scn, rec, seed, nsteps, modes, genstep_frac=0.3, reset_frac
     for i, (fo, fa, f1) in enumerate(modes):
         rec.create(i + 1, scn, fo, fa, f1)
         eids.append(i + 1)
+    flat_envs = [e for j, e in enumerate(eids) if modes[j][1]]
+    param_envs = [e for j, e in enumerate(eids) if not modes[j][1]]
+    if extras:
+        for e in eids[:2]:
+            rec.actions(e)
+        if param_envs:
+            size = 1
+            for x in rec.envs[param_envs[0]].action_space.nvec:
+                size *= int(x)
+            rec.decode_all(param_envs[0], limit=None if size <= 10000 else decode_limit)
+    for e in eids:
+        rec.envs[e].action_space.seed(seed + e)
     hosts = [tuple(h) for h in cs["hosts"]]
     counter = 0
     for t in range(nsteps):
@@ -77,20 +91,39 @@ def drive_random(cs, scn, rec, seed, nsteps, modes, genstep_frac=0.3, reset_frac
         if rng.random() < 0.6:
             u = u * 0.3          # lean towards the lucky side so that deep states are reached
         counter += 1
-        vec = None
-        if not modes[j][1]:
-            vec = encode_param(cs, k)
-        if modes[j][1]:
-            sp = (replay.FLAT_ENCS[counter % 3], k - 1)
-        elif vec is not None:
-            sp = (replay.VEC_ENCS[counter % 3], vec)
+        vec = encode_param(cs, k)
+
+        def spec_for_env(jj, c):
+            if modes[jj][1]:
+                return (replay.FLAT_ENCS[c % 3], k - 1)
+            return (replay.VEC_ENCS[c % 3], vec)
+
+        if lockstep:
+            evs = []
+            if rng.random() < genstep_frac:
+                for jj, ee in enumerate(eids):
+                    rec.genstep(ee, None, spec_for_env(jj, counter + jj), u, grp=t + 1)
+            for jj, ee in enumerate(eids):
+                evs.append(rec.step(ee, spec_for_env(jj, counter + jj), u, grp=t + 1))
+            ev = evs[0]
+            if rng.random() < reset_frac or (ev.get("ev") == "step" and (ev["term"] and rng.random() < 0.5)):
+                for ee in eids:
+                    rec.reset(ee)
+            continue
+        if extras and rng.random() < 0.04:
+            ev = rec.sample_step(e, u)
         else:
-            sp = ("obj", pyref.flat_action(cs, k))
-        if rng.random() < genstep_frac:
-            rec.genstep(e, None, sp, u)
-        ev = rec.step(e, sp, u)
+            sp = spec_for_env(j, counter)
+            if rng.random() < genstep_frac:
+                rec.genstep(e, None, sp, u)
+            ev = rec.step(e, sp, u)
         if rng.random() < 0.05:
             rec.goal(e, None)
+        if extras and rng.random() < 0.02:
+            if flat_envs:
+                rec.mask(flat_envs[0])
+            rec.readable_state(e, cs)
+            rec.readable_obs(e, cs, env.last_obs.numpy_flat() if env.flat_obs else env.last_obs.numpy())
         if rng.random() < reset_frac or (ev.get("ev") == "step" and (ev["term"] and rng.random() < 0.5)):
             rec.reset(e)
     return dict(steps=nsteps)
@@ -144,13 +177,15 @@ def run_job(job):
                 res["machinery"] = "no transitions parsed from the TLC dump"
                 return res
             info = replay.replay(cs, scn, graph, rec, modes=job.get("modes", replay.DEFAULT_MODES),
-                                 foreign=job.get("foreign", True), max_states=job.get("max_states"))
+                                 foreign=job.get("foreign", True), max_states=job.get("max_states"),
+                                 extras=job.get("extras", True))
             res["edges_replayed"] = info["edges"]
             res["graph_states"] = info["states"]
             res["spec_gates"] = {"%s/%s/%s" % k: v for k, v in info["gates"].items()}
         if job.get("random_steps"):
             drive_random(cs, scn, rec, job.get("seed", 0), job["random_steps"],
-                         job.get("modes", replay.DEFAULT_MODES))
+                         job.get("modes", replay.DEFAULT_MODES), lockstep=job.get("lockstep", False),
+                         extras=job.get("extras", True))
         rec.close()
         res["counts"] = dict(rec.counts)
         res["events"] = rec.i
